@@ -402,7 +402,8 @@ def _ensemble_append(c, adv, erel, prog=None):
     for attr, walker in (("self.sample", "self.walker_positions"), ("self.sample_probs", "self.walker_probs")):
         st = stores.get(attr)
         lay = None
-        if st is not None and isinstance(st.value, ast.Call) and st.value.args and not st.value.keywords and (
+        if st is not None and isinstance(st.value, ast.Call) and st.value.args and all(
+                k_.arg == "axis" and U(k_.value) == "0" for k_ in st.value.keywords) and (
                 U(st.value.func) == "concatenate" or (U(st.value.func) in ("vstack", "row_stack") and attr == "self.sample")
                 or (U(st.value.func) == "hstack" and attr == "self.sample_probs")):
             lay = L.layout_of(st.value.args[0], st)
@@ -679,6 +680,19 @@ def _mode(c, fn, st):
                         ok = True
                 except SyntaxError:
                     pass
+        # ... and is handed back as it is: the reported mode IS a recorded sample (a copy at most), not a rounded / re-typed one
+        if ok:
+            e_ = t
+            while True:
+                if isinstance(e_, ast.Call) and isinstance(e_.func, ast.Attribute) and e_.func.attr in ("copy", "squeeze", "ravel", "flatten") and not e_.args:
+                    e_ = e_.func.value
+                elif isinstance(e_, ast.Call) and isinstance(e_.func, ast.Name) and e_.func.id in ("array", "copy", "asarray") and len(e_.args) == 1 \
+                        and not [k_ for k_ in e_.keywords if k_.arg == "dtype"]:
+                    e_ = e_.args[0]
+                else:
+                    break
+            if not isinstance(e_, (ast.Subscript, ast.ListComp, ast.Name)):
+                ok = False
         why = f"mode returns `{txt}`"
     return struct_ob("mode", qual(c, fn), ok,
                      f"the mode must index the whole sample store {st.S} with argmax of the whole probability store {st.P}: {why}",
